@@ -120,7 +120,7 @@ Proof.
   destruct o as [i pts|i p pts]; cbn [handle].
   - destruct (node_points st i pts) as [st'|e] eqn:E; cbn [state_of fst]; [|exact HO].
     eapply node_points_edges_ok; eassumption.
-  - destruct Ho as [Hp Hi]. destruct (edge_points st i p pts) as [st'|e] eqn:E; cbn [state_of fst]; [|exact HO].
+  - pose proof Ho as Hp. cbn [op_ok] in Hp. destruct (edge_points st i p pts) as [st'|e] eqn:E; cbn [state_of fst]; [|exact HO].
     apply (edge_points_edge_rows st i p pts st' W HO Hp E).
 Qed.
 
